@@ -57,9 +57,9 @@ type xrec struct {
 }
 
 type e2eRig struct {
-	O, P       *g01rig.Origin
-	PD, PU     *g01rig.Proxy
-	tagD, tagU string
+	O, P, T          *g01rig.Origin // plain origin, scripted upstream proxy, TLS origin
+	PD, PU, PM       *g01rig.Proxy  // direct, via upstream proxy, MITM
+	tagD, tagU, tagM string
 }
 
 func learn(o *g01rig.Origin, sink *g01rig.Origin, p *g01rig.Proxy) (string, error) {
@@ -106,8 +106,19 @@ func newE2ERig() (*e2eRig, error) {
 		return nil, err
 	}
 	pu.SetUpstream(&url.URL{Scheme: "http", Host: p.Addr()})
-	rg := &e2eRig{O: o, P: p, PD: pd, PU: pu}
+	t, err := g01rig.NewTLSOrigin()
+	if err != nil {
+		return nil, err
+	}
+	pm, err := g01rig.StartProxyOpts("forwarder", g01rig.ProxyOpts{ConnectHeaderCallback: true, MITM: true})
+	if err != nil {
+		return nil, err
+	}
+	rg := &e2eRig{O: o, P: p, T: t, PD: pd, PU: pu, PM: pm}
 	if rg.tagD, err = learn(o, o, pd); err != nil {
+		return nil, err
+	}
+	if rg.tagM, err = learn(o, o, pm); err != nil { // a plain request through the MITM proxy shows its tag
 		return nil, err
 	}
 	if rg.tagU, err = learn(o, p, pu); err != nil {
@@ -119,8 +130,10 @@ func newE2ERig() (*e2eRig, error) {
 func (rg *e2eRig) stop() {
 	rg.PD.Stop()
 	rg.PU.Stop()
+	rg.PM.Stop()
 	rg.O.Close()
 	rg.P.Close()
+	rg.T.Close()
 }
 
 func bodyBytes(seed uint64, n int) []byte {
@@ -135,17 +148,17 @@ func bodyBytes(seed uint64, n int) []byte {
 	return b
 }
 
-func (rg *e2eRig) subst(s, tag string) string {
-	s = strings.ReplaceAll(s, "{O}", rg.O.Addr())
+func (rg *e2eRig) subst(s, tag, origin string) string {
+	s = strings.ReplaceAll(s, "{O}", origin)
 	return strings.ReplaceAll(s, "{TAG}", tag)
 }
 
 // render builds the bytes of one request and returns them with the substituted fields/target.
-func (rg *e2eRig) render(q xreq, tag string) ([]byte, string, []g01rig.Field, []byte) {
-	target := rg.subst(q.Target, tag)
+func (rg *e2eRig) render(q xreq, tag, origin string) ([]byte, string, []g01rig.Field, []byte) {
+	target := rg.subst(q.Target, tag, origin)
 	var fields []g01rig.Field
 	for _, f := range q.Fields {
-		fields = append(fields, g01rig.Field{Name: f.Name, Value: rg.subst(f.Value, tag)})
+		fields = append(fields, g01rig.Field{Name: f.Name, Value: rg.subst(f.Value, tag, origin)})
 	}
 	body := bodyBytes(q.BodySeed, q.BodyLen)
 	var b bytes.Buffer
@@ -192,19 +205,28 @@ type sentInfo struct {
 }
 
 func (rg *e2eRig) runConn(c xconn) ([]xobsJ, []sentInfo) {
-	px, sink, tag := rg.PD, rg.O, rg.tagD
-	if c.Mode == "U" {
+	px, sink, tag, origin := rg.PD, rg.O, rg.tagD, rg.O.Addr()
+	switch c.Mode {
+	case "U":
 		px, sink, tag = rg.PU, rg.P, rg.tagU
+	case "M":
+		px, sink, tag, origin = rg.PM, rg.T, rg.tagM, rg.T.Addr()
 	}
 	obs := make([]xobsJ, len(c.Reqs))
 	sent := make([]sentInfo, len(c.Reqs))
 	var raws [][]byte
 	for i, q := range c.Reqs {
-		raw, target, fields, body := rg.render(q, tag)
+		raw, target, fields, body := rg.render(q, tag, origin)
 		raws = append(raws, raw)
 		sent[i] = sentInfo{target, fields, body}
 	}
-	cl, err := g01rig.Dial(px.Addr)
+	var cl *g01rig.Client
+	var err error
+	if c.Mode == "M" {
+		cl, err = g01rig.DialMITM(px.Addr, origin)
+	} else {
+		cl, err = g01rig.Dial(px.Addr)
+	}
 	if err != nil {
 		for i := range obs {
 			obs[i].Err = err.Error()
@@ -309,8 +331,11 @@ func protoNums(p string) (int, int) {
 func (rg *e2eRig) coqXcase(c xconn, i int, o xobsJ, s sentInfo) string {
 	q := c.Reqs[i]
 	tag, mode := rg.tagD, 0
-	if c.Mode == "U" {
+	switch c.Mode {
+	case "U":
 		tag, mode = rg.tagU, 1
+	case "M":
+		tag, mode = rg.tagM, 2
 	}
 	maj, min := protoNums(q.Proto)
 	in := fmt.Sprintf("{| xi_mode := %d; xi_tag := %s; xi_client_ip := %s; xi_method := %s; xi_target := %s; xi_maj := %d; xi_min := %d; xi_fields := %s; xi_framing := %d; xi_blen := %d |}",
@@ -325,7 +350,7 @@ func (rg *e2eRig) coqXcase(c xconn, i int, o xobsJ, s sentInfo) string {
 var methods = []string{"GET", "GET", "GET", "POST", "PUT", "DELETE", "HEAD", "OPTIONS", "PATCH"}
 var paths = []string{"/", "/a/b/c", "/a%20b", "/a/../b/./c", "/%7Euser", "/%7euser", "/a;p=1", "/a+b", "/a%2Fb", "//double/slash", "/*", "/index.html", "/x{y}", "/q\"uote", "/pipe|x", "/caf\xc3\xa9", "/back\\slash", "/a^b", "/a`b", "/lt<gt>", ""}
 var queries = []string{"", "", "q=1", "a=b&c=%26", "x+y=%20", "a=1&a=2", "?", "a=b?c", "q={json}", "sp=a%2Bb", "utf=caf\xc3\xa9", "k", "a=\"x\""}
-var e2eFieldNames = []string{"Accept", "accept-language", "Cookie", "X-A", "x-a", "X-a", "X-B", "X-Custom-Id", "Cache-Control", "Authorization", "Content-Type", "If-None-Match", "Referer", "Origin", "X-Real-Ip", "Forwarded", "X-Empty"}
+var e2eFieldNames = []string{"Accept", "accept-language", "Cookie", "X-A", "x-a", "X-a", "X-B", "X-Custom-Id", "Cache-Control", "Authorization", "Content-Type", "If-None-Match", "Referer", "Origin", "X-Real-Ip", "Forwarded", "X-Empty", "Sec-WebSocket-Key", "Sec-WebSocket-Version"}
 var e2eValues = []string{"a", "b", "x y", "1", "text/html, */*;q=0.8", "k=v; k2=v2", "\"tag\"", "caf\xe9", "UPPER", "a,b", "inner  space", "", "=?", "(c)"}
 
 func genXreq(r *rng.R, last bool) xreq {
@@ -456,12 +481,31 @@ func genXreq(r *rng.R, last bool) xreq {
 
 func genXconn(r *rng.R) xconn {
 	c := xconn{Kind: "e2e", Mode: "D"}
-	if r.Chance(1, 3) {
+	switch r.Intn(6) {
+	case 0, 1:
 		c.Mode = "U"
+	case 2:
+		c.Mode = "M"
 	}
 	n := 1 + r.Intn(4)
 	for i := 0; i < n; i++ {
-		c.Reqs = append(c.Reqs, genXreq(r, i == n-1))
+		q := genXreq(r, i == n-1)
+		if c.Mode == "M" {
+			// inside the intercepted tunnel requests are in origin-form; X-Forwarded-Proto would select the
+			// scheme of the next hop (C07's business)
+			q.Target = strings.TrimPrefix(q.Target, "http://{O}")
+			if q.Target == "" || q.Target[0] != '/' {
+				q.Target = "/" + q.Target
+			}
+			var fs []g01rig.Field
+			for _, f := range q.Fields {
+				if !strings.EqualFold(f.Name, "X-Forwarded-Proto") {
+					fs = append(fs, f)
+				}
+			}
+			q.Fields = fs
+		}
+		c.Reqs = append(c.Reqs, q)
 	}
 	c.Pipelined = n > 1 && r.Chance(1, 4)
 	if !c.Pipelined && r.Chance(1, 3) {
@@ -483,6 +527,10 @@ func xcorpus() []xconn {
 		one("D", xreq{Method: "GET", Target: "/x", Proto: "HTTP/1.1", Fields: []g01rig.Field{h, {"Connection", "x-a, keep-alive"}, {"X-A", "1"}, {"Keep-Alive", "timeout=5"}, {"Proxy-Authorization", "Basic Zm9vOmJhcg=="}, {"TE", "trailers"}, {"X-B", "2"}}, Framing: "none"}),
 		one("D", xreq{Method: "GET", Target: "/x{y}?q={z}", Proto: "HTTP/1.1", Fields: []g01rig.Field{h}, Framing: "none"}),
 		one("D", xreq{Method: "GET", Target: "/loop", Proto: "HTTP/1.1", Fields: []g01rig.Field{h, {"Via", "1.1 alpha"}, {"Via", "1.1 {TAG}"}}, Framing: "none"}),
+		{Kind: "e2e", Mode: "M", Reqs: []xreq{
+			{Method: "GET", Target: "/inside?tunnel=1", Proto: "HTTP/1.1", Fields: []g01rig.Field{h, {"X-A", "1"}, {"X-A", "2"}, {"Via", "1.1 alpha"}}, Framing: "none"},
+			{Method: "POST", Target: "/upload", Proto: "HTTP/1.1", Fields: []g01rig.Field{h, {"Connection", "x-b"}, {"X-B", "gone"}}, Framing: "chunked", BodyLen: 32768, BodySeed: 5, Chunks: []int{4097, 4095}},
+		}},
 		{Kind: "e2e", Mode: "D", Pipelined: true, Reqs: []xreq{
 			{Method: "POST", Target: "/1", Proto: "HTTP/1.1", Fields: []g01rig.Field{h}, Framing: "cl", BodyLen: 4097, BodySeed: 1},
 			{Method: "GET", Target: "/2", Proto: "HTTP/1.1", Fields: []g01rig.Field{h, {"X-A", "second"}}, Framing: "none"},
@@ -549,6 +597,7 @@ func runE2E(r *rng.R, tier, out string, m *meta) {
 	}
 	m.OriginErrors = append(m.OriginErrors, rg.O.Errors()...)
 	m.OriginErrors = append(m.OriginErrors, rg.P.Errors()...)
+	m.OriginErrors = append(m.OriginErrors, rg.T.Errors()...)
 	size := 100
 	m.E2E["shard_size"] = size
 	m.E2E["exchanges"] = len(xc)
